@@ -36,6 +36,9 @@ type C19Case struct {
 	// 0 the application as is; 1 the same application data under another output size;
 	// 2 a second application with the same node names and other template texts
 	Alt []int `json:"alt,omitempty"`
+	// UsePo: templates and labels are served by ONE resource.PoResource (gettext catalogues)
+	// that all sessions of an application share, like the bytecode
+	UsePo bool `json:"use_po,omitempty"`
 }
 
 // genHubApp builds the shape in which sessions interfere if pending code aliases shared
@@ -111,6 +114,10 @@ func genC19(conc bool) func(t *rapid.T) C19Case {
 			c.Mode = []app.Mode{{Kind: "long"}, {Kind: "persist", Backend: "fs"}, {Kind: "persist", Backend: "mem"}, {Kind: "persist", Backend: "pg"}}[uniformN(t, 4, "mode")]
 			c.Schedule = rapid.SliceOfN(rapid.IntRange(0, n-1), total, total+4).Draw(t, "schedule")
 		}
+		if len(a.Trans) > 0 && chancePct(t, 40, "usepo") {
+			c.UsePo = true
+			poFriendly(a)
+		}
 		if chancePct(t, 35, "alts") {
 			for i := 0; i < n; i++ {
 				c.Alt = append(c.Alt, uniformN(t, 3, "alt"))
@@ -134,6 +141,17 @@ type c19Env struct {
 // engine, state, cache and store handle.
 func newC19Env(c C19Case, shared *app.Shared, only int) *c19Env {
 	e := &c19Env{shared: shared, before: map[string][]byte{}}
+	usePo := func(sh *app.Shared) {
+		if !c.UsePo {
+			return
+		}
+		dir := workDir()
+		e.cleanup = append(e.cleanup, func() { os.RemoveAll(dir) })
+		if err := sh.WritePo(dir); err == nil {
+			sh.UsePo, sh.PoDir = true, dir
+		}
+	}
+	usePo(shared)
 	for k, v := range shared.Code {
 		e.before[k] = append([]byte{}, v...)
 	}
@@ -166,6 +184,7 @@ func newC19Env(c C19Case, shared *app.Shared, only int) *c19Env {
 		if alt == 2 {
 			if e.second == nil {
 				e.second = app.NewShared(app.SecondApp(c.App))
+				usePo(e.second)
 				e.before2 = map[string][]byte{}
 				for k, v := range e.second.Code {
 					e.before2[k] = append([]byte{}, v...)
@@ -241,7 +260,7 @@ func c19FreshProcess(c C19Case, solo [][]app.Step) (*Violation, bool) {
 	}
 	dir := workDir()
 	defer os.RemoveAll(dir)
-	job := map[string]any{"app": c.App, "hists": c.Hists, "mode": c.Mode, "dir": dir, "alt": c.Alt}
+	job := map[string]any{"app": c.App, "hists": c.Hists, "mode": c.Mode, "dir": dir, "alt": c.Alt, "use_po": c.UsePo}
 	jb, _ := json.Marshal(job)
 	jp := filepath.Join(dir, "job.json")
 	os.WriteFile(jp, jb, 0o600)
